@@ -1017,14 +1017,33 @@ fn check(prop: &str, tier: &str) -> i32 {
             let _ = std::fs::copy(file, format!("{}/replays/harness-{}.scn", VERIF, prop));
             continue;
         }
-        let rep = run_one(prop, &prof, &parsed.scn, None, false);
-        let v0 = match rep.violation {
-            Some(v) if owned(prop, &v) => v,
-            _ => {
-                die2(&format!("violation {} from a worker did not reproduce in the parent: nondeterminism in the harness ({})", sig, file));
+        // reproduce and minimise in a disposable sub-process: a violation may corrupt memory
+        let outp = format!("{}/triage-{}.scn", workdir, by_sig.keys().position(|k| k == sig).unwrap_or(0));
+        let st = std::process::Command::new(&exe).args(["triage", prop, tier, file, &outp]).stderr(std::process::Stdio::null()).status().unwrap_or_else(|e| die2(&format!("triage: {}", e)));
+        let (min, vmin) = if st.code() == Some(0) {
+            let t = std::fs::read_to_string(&outp).unwrap_or_else(|e| die2(&format!("read {}: {}", outp, e)));
+            let pm = scn::from_text(&t).unwrap_or_else(|e| die2(&format!("parse {}: {}", outp, e)));
+            let detail = t.lines().filter_map(|l| l.strip_prefix("# ")).collect::<Vec<_>>().join(" ");
+            let mut v = crash_violation(&pm.scn, &infos, detail);
+            v.class = Class::Triage;
+            v.context = pm.expect.clone();
+            (pm.scn, v)
+        } else if st.code() == Some(3) {
+            die2(&format!("violation {} from a worker did not reproduce in a fresh process: nondeterminism in the harness ({})", sig, file));
+        } else {
+            // the triage process itself died: treat as a crash-class violation
+            eprintln!("[anysim] triage of {} died ({:?}): minimising as a crash", sig, st);
+            let v0 = crash_violation(&parsed.scn, &infos, format!("process died while re-executing a violation first seen as {} ({:?})", sig, st));
+            if !owned(prop, &v0) {
+                eprintln!("[anysim]   crash not owned by {}: {}", prop, v0.detail);
+                continue;
             }
+            std::fs::create_dir_all(format!("{}/work", VERIF)).ok();
+            let (m, _) = if violates(prop, &prof, &parsed.scn, Class::Crash, true).is_some() { shrink(prop, &prof, &parsed.scn, &v0, shrink_budget) } else { (parsed.scn.clone(), v0.clone()) };
+            let mut v = crash_violation(&m, &infos, v0.detail.clone());
+            v.context = format!("{}", m.steps.last().map(|s| s.op.name()).unwrap_or("nop"));
+            (m, v)
         };
-        let (min, vmin) = shrink(prop, &prof, &parsed.scn, &v0, shrink_budget);
         let msig = vmin.signature();
         if let Some(k) = known.iter().find(|k| k.prop == prop && (k.sig == msig || k.sig == *sig)) {
             known_hit.push((k.sig.clone(), k.text.clone()));
@@ -1033,7 +1052,7 @@ fn check(prop: &str, tier: &str) -> i32 {
         let name = infos.iter().find(|i| i.id == min.world).map(|i| i.name()).unwrap_or_default();
         let h = scn::scenario_hash(&min);
         let path = format!("{}/replays/{}-{:016x}.replay", VERIF, prop, h);
-        let detail = format!("step {}: {}", vmin.step, vmin.detail);
+        let detail = if vmin.class == Class::Triage { vmin.detail.clone() } else { format!("step {}: {}", vmin.step, vmin.detail) };
         std::fs::write(&path, scn::to_text(&min, &name, prop, &msig, &detail)).unwrap_or_else(|e| die2(&format!("write {}: {}", path, e)));
         // confirm in a fresh process
         let st = std::process::Command::new(&exe).args(["replay", &path, "--quiet"]).status().unwrap_or_else(|e| die2(&format!("replay: {}", e)));
@@ -1293,6 +1312,30 @@ fn main() {
             simcore::blackbox::note_run(0, 0, 1, 0);
             let code = probe::run(&args[1], &args[2], args[3].parse().unwrap(), args[4].parse().unwrap());
             std::process::exit(code);
+        }
+        "triage" => {
+            // triage <prop> <tier> <violation file> <out file>: reproduce and minimise in this
+            // (disposable) process; exit 0 = minimised scenario written, 3 = did not reproduce
+            start_watchdog(60);
+            let prop = args[1].as_str();
+            let tier = args[2].as_str();
+            let prof = profile(prop).unwrap_or_else(|| die2("unknown property"));
+            simcore::registry::install_hook();
+            let txt = std::fs::read_to_string(&args[3]).unwrap_or_else(|e| die2(&format!("read: {}", e)));
+            let parsed = scn::from_text(&txt).unwrap_or_else(|e| die2(&format!("parse: {}", e)));
+            let rep = run_one(prop, &prof, &parsed.scn, None, false);
+            beat();
+            let v0 = match rep.violation {
+                Some(v) if owned(prop, &v) => v,
+                _ => std::process::exit(3),
+            };
+            let budget = if tier == "thorough" { 40 } else { 15 };
+            let (min, vmin) = shrink(prop, &prof, &parsed.scn, &v0, budget);
+            let infos = world_infos();
+            let name = infos.iter().find(|i| i.id == min.world).map(|i| i.name()).unwrap_or_default();
+            let detail = format!("step {}: {}", vmin.step, vmin.detail);
+            std::fs::write(&args[4], scn::to_text(&min, &name, prop, &vmin.signature(), &detail)).unwrap_or_else(|e| die2(&format!("write: {}", e)));
+            std::process::exit(0);
         }
         "list-worlds" => {
             for w in world_infos() {
